@@ -115,7 +115,7 @@ def editOK (e : Edit) : Bool :=
    | some (t, some u) => t == "RollingUpdate" && ruValid u
    | some (_, none) => false)
 
-def stepsOK (steps : List Step) : Bool := steps.all fun s => s.call != .admit || editOK s.edit
+def stepsOK (steps : List Step) : Bool := steps.all fun s => s.call != .submit || editOK s.edit
 
 /-- the `rollingUpdate` block after a user edit -/
 def editRU (u : RU) (e : Edit) : RU :=
@@ -123,7 +123,7 @@ def editRU (u : RU) (e : Edit) : RU :=
   | some (_, some u') => u'
   | _ => u
 
-def stepRU (u : RU) (s : Step) : RU := if s.call = .admit then editRU u s.edit else u
+def stepRU (u : RU) (s : Step) : RU := if s.call = .submit then editRU u s.edit else u
 
 /-- the `rollingUpdate` the user submitted last -/
 def trackRU (u : RU) : List Step → RU
@@ -185,7 +185,7 @@ def roundTripPartial (d0 : Dep) (pre : List Step) (last : Step) (dl : Option Dep
 /-- a controller call with an injected API fault leaves the Deployment as it was; a failed read is an error;
     an error never comes with a change -/
 def faultSafe (s : Step) (d : Option Dep) (o : StepOut) : Bool :=
-  if s.call = .admit then true else
+  if s.call = .submit then true else
   (if s.fault ≠ .none ∨ o.res = .err then o.dep == d else true) &&
   (if s.fault = .get then o.res == .err && o.writes == 0 else true) &&
   (if s.fault = .write ∧ o.res = .ok then o.writes == 0 else true)
@@ -207,7 +207,7 @@ def okHasEffect (s : Step) (d : Option Dep) (o : StepOut) : Bool :=
 
 /-- steps `k` and `k+1` repeat the same controller call -/
 def sameCall (a b : Step) : Bool :=
-  a.call == b.call && a.call != .admit && a.fault == .none && b.fault == .none &&
+  a.call == b.call && a.call != .submit && a.fault == .none && b.fault == .none &&
   (a.call != .upgradeBatch || a.batch == b.batch) && (a.call != .finalize || a.bpNil == b.bpNil)
 
 /-- C06 idempotence: repeating a successful call changes nothing and issues no write -/
@@ -217,7 +217,7 @@ def idempotent (a b : Step) (oa ob : StepOut) : Bool :=
 /-- no step ever touches what is not modelled, the template, the size or the in-progress annotation
     (controller calls), and `writes ≤ 1` -/
 def frame (s : Step) (d : Option Dep) (o : StepOut) : Bool :=
-  if s.call = .admit then
+  if s.call = .submit then
     match d, o.dep with
     | some d, some d' => d'.rest == d.rest && d'.control == d.control && d'.ctrlLabel == d.ctrlLabel &&
                          d'.extraStatus == d.extraStatus
